@@ -68,6 +68,8 @@ GROUPS = {
     ("src/arch/all/twoway.rs", r"impl FinderRev \{", "FinderRev", ["new"])],
   "PackedPairNew": [
     ("src/arch/generic/packedpair.rs", r"impl<V: Vector> Finder<V> \{", "PPFinder", ["new"])],
+  "TopLevel": [
+    ("src/memmem/mod.rs", None, "memmem", ["find", "rfind"])],
   "SearcherRev": [
     ("src/memmem/searcher.rs", r"impl SearcherRev \{", "SearcherRev", ["new", "rfind"])],
   "IterNext": [
@@ -98,6 +100,15 @@ STRUCT_ALIAS = {"PackedPairNew": {"Finder": "PPFinder"}}
 ORACLES = {
     ("FindIter", "next"): {"self.finder.searcher.find": ("o_find", [1], "Option<usize>", "list N -> option N")},
     ("FindRevIter", "next"): {"self.finder.rfind": ("o_rfind", [0], "Option<usize>", "list N -> option N")},
+    # the one-shot functions: the Rabin-Karp finder is built by translated code, its search and the whole
+    # `Finder::new(needle).find(haystack)` are oracles; ("recv",) passes the receiver value, ("inner", i) the i-th
+    # argument of the call that produced the receiver
+    ("memmem", "find"): {
+        "rabinkarp::Finder::new().find": ("o_rk_find", [("recv",), 0], "Option<usize>", "CodeRabinKarp.Finder -> list N -> option N"),
+        "Finder::new().find": ("o_finder_find", [("inner", 0), 0], "Option<usize>", "list N -> list N -> option N")},
+    ("memmem", "rfind"): {
+        "rabinkarp::FinderRev::new().rfind": ("o_rk_rfind", [("recv",), 0], "Option<usize>", "CodeRabinKarp.FinderRev -> list N -> option N"),
+        "FinderRev::new().rfind": ("o_finder_rfind", [("inner", 0), 0], "Option<usize>", "list N -> list N -> option N")},
     ("SearcherRev", "rfind"): {
         "crate::memrchr": ("o_memrchr", [0, 1], "Option<usize>", "N -> list N -> option N"),
         "self.rabinkarp.rfind": ("o_rk_rfind", [0], "Option<usize>", "list N -> option N"),
@@ -116,6 +127,7 @@ STRUCTS = {
     "IterHint": {},
     "IterNext": {},
     "SearcherRev": {"SearcherRev": "src/memmem/searcher.rs"},
+    "TopLevel": {},
     "PackedPairNew": {},
     "Shift": {},
     "Suffix": {"Suffix": "src/arch/all/twoway.rs"},
@@ -133,6 +145,10 @@ QUALIFIED = {
                      "rabinkarp::FinderRev::new": ("CodeRabinKarp.rs_FinderRev_new", False, ["&[u8]"], "rabinkarp::FinderRev"),
                      "rabinkarp::is_fast": ("CodeRabinKarp.rs_rabinkarp_is_fast", False, ["&[u8]", "&[u8]"], "bool")}),
 }
+QUALIFIED["TopLevel"] = (["RabinKarp"],
+                         {"rabinkarp::Finder": "CodeRabinKarp.Finder", "rabinkarp::FinderRev": "CodeRabinKarp.FinderRev"},
+                         {"rabinkarp::Finder::new": ("CodeRabinKarp.rs_Finder_new", False, ["&[u8]"], "rabinkarp::Finder"),
+                          "rabinkarp::FinderRev::new": ("CodeRabinKarp.rs_FinderRev_new", False, ["&[u8]"], "rabinkarp::FinderRev")})
 QUAL_TYPES = {}
 for _g, (_r, _t, _c) in QUALIFIED.items():
     QUAL_TYPES.update(_t)
@@ -926,6 +942,8 @@ class Tr:
             return self.render(e[1]) + "." + e[2]
         if e[0] == "mcall" and not e[3]:
             return self.render(e[1]) + "." + e[2] + "()"
+        if e[0] == "call":
+            return "::".join(e[1]) + "()"
         return "?"
 
     def mcall(self, e, env, want):
@@ -947,7 +965,16 @@ class Tr:
         orc = ORACLES.get((self.prefix, self.fn["name"]), {}).get(self.render(recv) + "." + name)
         if orc:
             oname, idxs, oty, octy = orc
-            ras = [self.expr(args[i_], env) for i_ in idxs]
+            ras = []
+            for i_ in idxs:
+                if i_ == ("recv",):
+                    ras.append(self.expr(recv, env))
+                elif isinstance(i_, tuple) and i_[0] == "inner":
+                    if recv[0] != "call":
+                        raise TieBroken(f"{w}: oracle receiver is not a call")
+                    ras.append(self.expr(recv[2][i_[1]], env))
+                else:
+                    ras.append(self.expr(args[i_], env))
             self.oracles_used[oname] = octy
             return self.bind_all(ras, lambda pas: R(f"({oname}" + "".join(" " + a.text for a in pas) + ")", True, oty))
         al = self.aliases.get(self.render(e))
